@@ -26,6 +26,13 @@ let read_token c =
   | "P" -> Some (Z.opp (next_z c))
   | t -> failwith ("bad token tag " ^ t)
 
+let read_asof c =
+  match next c with
+  | "Z" -> None
+  | "O" -> Some (next_z c)
+  | t -> failwith ("bad upload start tag " ^ t)
+let show_asof = function None -> "zero" | Some a -> "now" ^ (match a with Zneg _ -> "" | _ -> "+") ^ string_of_int (int_of_z a) ^ "s"
+
 let period = c_tokenPeriod_ns
 let now0 = z_of_int 0
 let fuel = nat_of_int 4
@@ -47,6 +54,7 @@ let handle kind c =
     let uv = next_bool c in
     let crash = next_bool c in
     let upload = next_bool c in
+    let asof = read_asof c in
     let file = (match next c with
         | "N" -> None | "F" -> Some (next_bytes c)
         | t -> failwith ("bad mode file tag " ^ t)) in
@@ -62,7 +70,7 @@ let handle kind c =
     ignore mset;
     let cfg = { c_crash = crash; c_upload = upload } in
     (* model vs implementation *)
-    let r = program_run_file entry cfg_dir env_dir marker uv cfg file ld period now0 tok in
+    let r = program_run_cfg entry cfg_dir env_dir marker uv cfg asof file ld period now0 tok in
     let emode = effective_mode (dir_known cfg_dir env_dir) mode in
     let want_outcome = match r.r_outcome with
       | OReturned -> "returned" | OChildExit -> "exit0-in-start" | OFatal -> "fatal" in
@@ -71,7 +79,7 @@ let handle kind c =
       else if exit = 0 then "exit0-in-start"
       else if exit = 1 then "fatal" else Printf.sprintf "exit%d" exit in
     check_eq "outcome" (fun s -> s) want_outcome got_outcome;
-    let want = spawned_file fuel entry cfg_dir env_dir marker uv cfg file ld period now0 tok in
+    let want = spawned_cfg fuel entry cfg_dir env_dir marker uv cfg asof file ld period now0 tok in
     (* the crash monitor of a sidecar exits the process as soon as its parent
        is gone, possibly before the uploader ran the go command: with crash
        reporting on, the delegated process is optional *)
@@ -95,8 +103,8 @@ let handle kind c =
     if (not m_writes) && changed then diff "dir-unchanged" ~model:"unchanged" ~impl:"changed";
     (* the property on the observations *)
     let detail () =
-      Printf.sprintf "dir=%s entry=%s marker=\"%s\" upload_var=%b crash=%b upload=%b mode-file=%s token=%s procs=%s token_created=%b dir_changed=%b"
-        src (match entry with EntryStart -> "Start" | EntryMaybeChild -> "MaybeChild-then-Start") (esc marker) uv crash upload (match file with None -> "(none)" | Some d -> "\"" ^ esc d ^ "\" (reads as \"" ^ esc mode ^ "\")")
+      Printf.sprintf "dir=%s entry=%s marker=\"%s\" upload_var=%b crash=%b upload=%b upload-start-time=%s mode-file=%s token=%s procs=%s token_created=%b dir_changed=%b"
+        src (match entry with EntryStart -> "Start" | EntryMaybeChild -> "MaybeChild-then-Start") (esc marker) uv crash upload (show_asof asof) (match file with None -> "(none)" | Some d -> "\"" ^ esc d ^ "\" (reads as \"" ^ esc mode ^ "\")")
         (match tok with None -> "absent" | Some m -> "age " ^ tok_of_z (Z.opp m) ^ "ns")
         (show_procs procs) tok_created changed in
     if not (start_ok marker uv cfg emode period now0 tok tok_created changed procs) then begin
@@ -113,6 +121,7 @@ let handle kind c =
   | "race" ->
     let n = next_int c in
     let tok = read_token c in
+    let asof = read_asof c in
     let procs = read_procs c in
     let won = List.length (List.filter (fun p -> p.p_kind = KSidecar && p.p_upload) procs) in
     (* model: the starters one after the other *)
@@ -124,8 +133,8 @@ let handle kind c =
     end else begin
       check_eq "race-winners" string_of_int mw won;
       if won > 1 then
-        prop "token-once" (Printf.sprintf "%d of %d concurrent starters acquired the token (%s): %s" won n
-                             (match tok with None -> "absent" | Some _ -> "fresh") (show_procs procs))
+        prop "token-once" (Printf.sprintf "%d of %d concurrent starters (UploadStartTime %s) acquired the token (%s): %s" won n
+                             (show_asof asof) (match tok with None -> "absent" | Some _ -> "fresh") (show_procs procs))
     end;
     List.iter (fun p ->
         if p.p_kind = KSidecar && not (beq p.p_marker lit_1) then
@@ -133,6 +142,7 @@ let handle kind c =
   | "tokrace" ->
     let n = next_int c in
     let tok = read_token c in
+    let asof = read_asof c in
     let won = next_int c in
     let sched = List.concat (List.init n (fun i -> let t = nat_of_int i in [Step t; Step t; Step t])) in
     let mw = int_of_nat (winners (trun period sched (tinit (nat_of_int n) now0 tok))) in
@@ -142,9 +152,37 @@ let handle kind c =
     end else begin
       check_eq "tokrace-winners" string_of_int mw won;
       if won > 1 then
-        prop "token-once" (Printf.sprintf "%d of %d concurrent acquireUploadToken calls returned true (token %s)" won n
-                             (match tok with None -> "absent" | Some _ -> "fresh"))
+        prop "token-once" (Printf.sprintf "%d of %d concurrent telemetry.Start calls (UploadStartTime %s) launched an uploading sidecar (token %s)" won n
+                             (show_asof asof) (match tok with None -> "absent" | Some _ -> "fresh"))
     end
+  | "history" ->
+    let tok = read_token c in
+    let k = next_int c in
+    let t = ref now0 in
+    let secs = ref 0 in
+    let evs = List.init k (fun _ ->
+        let delta = next_z c in
+        let asof = read_asof c in
+        let launched = next_bool c in
+        let created = next_bool c in
+        t := Z.add !t delta;
+        secs := !secs + int_of_z delta / 1000000000;
+        (!t, asof, launched, created, !secs)) in
+    let starts = List.map (fun (t, a, _, _, _) -> (t, a)) evs in
+    let (want, _) = history_run period starts tok in
+    let got = List.map (fun (_, _, l, _, _) -> l) evs in
+    let show l = String.concat "," (List.map string_of_bool l) in
+    let describe () =
+      Printf.sprintf "token=%s starts=[%s]"
+        (match tok with None -> "absent" | Some m -> "age " ^ tok_of_z (Z.opp m) ^ "ns")
+        (String.concat "; " (List.map (fun (_, a, l, cr, sec) ->
+             Printf.sprintf "at +%ss UploadStartTime=%s uploading-sidecar=%b token-recreated=%b"
+               (string_of_int sec) (show_asof a) l cr) evs)) in
+    check_eq "history-acquired" show want got;
+    List.iter (fun (_, _, l, cr, _) -> if l <> cr then diff "history-token-stamp" ~model:(string_of_bool l) ~impl:(string_of_bool cr)) evs;
+    (* the rate limit on what was observed: two acquisitions less than 24 h of real time apart *)
+    if not (history_spaced period tok (List.map (fun (t, _, l, _, _) -> (t, l)) evs)) then
+      prop "token-once-per-period" (describe ())
   | k -> diff "unknown-case-kind" ~model:k ~impl:"-"
 
 let () = run_file Sys.argv.(1) handle
